@@ -938,3 +938,112 @@ func ruleStringIndexAttrs(c *Ctx, r *R) {
 		r.undecided("unresolved:index-property", c.Pos(getOwn.Pos()), "UNRESOLVED: "+getOwn.Name()+" builds no property literal")
 	}
 }
+
+func init() {
+	register(&Rule{ID: "THIS-tostring", Props: []string{"C09"}, Min: 15,
+		Doc: "P (must-pass-through, interprocedural): every String.prototype function except toString / valueOf is generic - its step 2 is `Let S be the result of calling ToString, giving it the this value as its argument` (ES5 15.5.4.4-20), also when this is a String object whose toString was replaced. On every path from entry to every normal return of such a built-in, ToString has been applied to call.This: a call of (Value).string on the This field, directly or in a helper all of whose returning paths do so. A shortcut that reads the code units a String object already holds skips an observable conversion (`var s = new String('abc'); s.toString = function(){ return 'xyz' }; s.charAt(0)` must be 'x')",
+		Run: ruleThisToString})
+}
+
+func ruleThisToString(c *Ctx, r *R) {
+	s := c.Shape()
+	if s == nil {
+		r.undecided("shape", "-", "UNRESOLVED: shape")
+		return
+	}
+	proto := s.ByPath["String.prototype"]
+	if proto == nil {
+		r.undecided("unresolved:String.prototype", "-", "UNRESOLVED: String.prototype")
+		return
+	}
+	isThisString := func(i ssa.Instruction) bool {
+		call, ok := i.(*ssa.Call)
+		if !ok || call.Call.StaticCallee() == nil {
+			return false
+		}
+		n := call.Call.StaticCallee().Name()
+		if (n != "string" && n != "String") || call.Call.StaticCallee().Signature.Recv() == nil || len(call.Call.Args) == 0 {
+			return false
+		}
+		// receiver is the This field of a FunctionCall
+		switch x := call.Call.Args[0].(type) {
+		case *ssa.UnOp:
+			return isFieldAddr(x.X, "FunctionCall", "This")
+		case *ssa.Field:
+			if st, ok := x.X.Type().Underlying().(*types.Struct); ok {
+				return st.Field(x.Field).Name() == "This" && typeIs(x.X.Type(), ottoPath, "FunctionCall")
+			}
+		}
+		return false
+	}
+	// summaries: functions with a FunctionCall parameter that convert This on every returning path
+	always := map[*ssa.Function]bool{}
+	takesCall := func(f *ssa.Function) bool {
+		for _, p := range f.Params {
+			if typeIs(p.Type(), ottoPath, "FunctionCall") {
+				return true
+			}
+		}
+		return false
+	}
+	covers := func(f *ssa.Function) bool {
+		cut := func(i ssa.Instruction) bool {
+			if isThisString(i) {
+				return true
+			}
+			if call, ok := i.(*ssa.Call); ok && always[call.Call.StaticCallee()] {
+				return true
+			}
+			return false
+		}
+		for _, b := range f.Blocks {
+			if ret, ok := b.Instrs[len(b.Instrs)-1].(*ssa.Return); ok {
+				if reachableWithout(f, ret, cut) {
+					return false
+				}
+			}
+		}
+		return true
+	}
+	for changed := true; changed; {
+		changed = false
+		for _, f := range c.AllSrcFuncs("") {
+			if always[f] || f.Parent() != nil || !takesCall(f) || f.Blocks == nil {
+				continue
+			}
+			if covers(f) {
+				always[f] = true
+				changed = true
+			}
+		}
+	}
+	n := 0
+	var names []string
+	for name := range proto.Props {
+		names = append(names, name)
+	}
+	sort.Strings(names)
+	for _, name := range names {
+		if name == "toString" || name == "valueOf" || name == "constructor" || name == "length" {
+			continue
+		}
+		ch := proto.Props[name].objOf()
+		if ch == nil || ch.Native == nil {
+			continue
+		}
+		f, ok := ch.Native.Call.(SFunc)
+		if !ok {
+			continue
+		}
+		fn := c.SSAFunc(f.Fn)
+		if fn == nil {
+			continue
+		}
+		n++
+		r.check(always[fn], "String.prototype."+name, c.Pos(fn.Pos()), "ToString(this) on every returning path",
+			fmt.Sprintf("String.prototype.%s (%s) can return without having applied ToString to its this value: ES5 15.5.4 makes it generic - step 2 converts this with ToString, also for a String object whose toString was replaced (`var s = new String('abc'); s.toString = function(){ return 'xyz' }; s.%s(...)` must work on 'xyz')", name, fn.Name(), name))
+	}
+	if n < 15 {
+		r.undecided("unresolved:builtins", "-", fmt.Sprintf("UNRESOLVED: %d String.prototype built-ins resolved", n))
+	}
+}
